@@ -28,7 +28,7 @@ constexpr size_t DEC_CAP = 8u << 20;
 constexpr size_t EV_CAP = 1u << 18;
 
 enum St : int {
-    S_FREE = 0, S_RUN, S_MUTEX, S_CV, S_JOIN, S_SPIN, S_QUIESCE, S_EXITED
+    S_FREE = 0, S_RUN, S_MUTEX, S_CV, S_JOIN, S_SPIN, S_QUIESCE, S_EXITED, S_SLEEP
 };
 
 struct Th {
@@ -43,6 +43,8 @@ struct Th {
     int same_loads;
     uint64_t last_run;     // step at which the thread was last chosen (fair fallback)
     uint32_t last_wseq;    // write count of last_load's atomic when it was loaded
+    bool timed;            // blocked in a wait with a timeout / in a sleep: simulated time may pass
+    bool timed_out;
 };
 
 struct Xo {
@@ -144,7 +146,7 @@ const char* stname(int s) {
     switch (s) {
     case S_RUN: return "run"; case S_MUTEX: return "mutex"; case S_CV: return "cv";
     case S_JOIN: return "join"; case S_SPIN: return "spin";
-    case S_QUIESCE: return "quiesce"; case S_EXITED: return "exited";
+    case S_QUIESCE: return "quiesce"; case S_EXITED: return "exited"; case S_SLEEP: return "sleep";
     }
     return "?";
 }
@@ -267,6 +269,19 @@ void schedule(bool final_exit = false) {
             if (g.th[t].state == S_SPIN) { g.th[t].state = S_RUN; }
         me_en = g.th[me].state == S_RUN;
         if (me_en) cand[n++] = me;
+        for (int t = 0; t < g.nth; ++t)
+            if (t != me && g.th[t].state == S_RUN) cand[n++] = t;
+    }
+    if (n == 0) {
+        // nobody can run: simulated time jumps to the earliest deadline -- every thread in a timed wait
+        // or a sleep times out (tlx itself has no timed waits; this keeps the simulator honest for
+        // code that introduces one)
+        for (int t = 0; t < g.nth; ++t)
+            if ((g.th[t].state == S_CV || g.th[t].state == S_SLEEP) && g.th[t].timed) {
+                g.th[t].state = S_RUN; g.th[t].timed_out = true; g.st.f_timeout++;
+                if (t == me) me_en = true;
+            }
+        if (g.th[me].state == S_RUN) cand[n++] = me;
         for (int t = 0; t < g.nth; ++t)
             if (t != me && g.th[t].state == S_RUN) cand[n++] = t;
     }
@@ -420,6 +435,25 @@ void rt_cv_wait(CvSt* c, MutexSt* m) {
     acquire(m);
 }
 void rt_cv_waited(CvSt* c) { if (g.active) after(OP_LOCK, c->ord); }
+// wait with a timeout: like rt_cv_wait, but the thread may also be resumed by the passage of
+// simulated time (when nothing else can run, or as a seeded early timeout).  Returns true if it timed out.
+bool rt_cv_wait_timed(CvSt* c, MutexSt* m) {
+    Th& t = g.th[me];
+    t.timed = true; t.timed_out = false;
+    rt_cv_wait(c, m);
+    bool r = t.timed_out;
+    t.timed = false; t.timed_out = false;
+    return r;
+}
+void rt_sleep() {
+    if (!g.active) return;
+    Th& t = g.th[me];
+    reset_spin(t);
+    // a sleep ends when simulated time has passed: either at once (seeded) or when nobody else can run
+    if (rt_choice(2, 500) == 0) { t.state = S_SLEEP; t.timed = true; }
+    after(OP_YIELD, 1);
+    t.timed = false; t.timed_out = false;
+}
 void rt_cv_notify(CvSt* c, bool all) {
     if (!g.active) return;
     reset_spin(g.th[me]);
